@@ -322,8 +322,12 @@ def gen_cases(rng, tier):
                               and any(p == ["estimators"] for p, _ in asg))})
         for _ in range(2 * per):
             cases.append({"kind": "tree_clone", "tree": _tree(rng, f)})
-    hist_classes = ["NaiveForecaster", "PolynomialTrendForecaster", "EnsembleForecaster",
-                    "TransformedTargetForecaster", "Deseasonalizer", "Detrender"]
+    fc_m = ["predict", "update", "update_predict_single", "score"]
+    hist_classes = {"NaiveForecaster": fc_m, "PolynomialTrendForecaster": fc_m,
+                    "EnsembleForecaster": fc_m,
+                    "TransformedTargetForecaster": fc_m + ["transform", "inverse_transform"],
+                    "Deseasonalizer": ["transform", "inverse_transform", "update"],
+                    "Detrender": ["transform", "inverse_transform", "update"]}
     for c in hist_classes:
         for _ in range(3 * per):
             evs = []
@@ -334,8 +338,7 @@ def gen_cases(rng, tier):
                 elif r < 0.45:
                     evs.append(["clone"])
                 else:
-                    evs.append(["apply", rng.choice(["predict", "update", "update_predict_single",
-                                                     "transform", "inverse_transform"])])
+                    evs.append(["apply", rng.choice(hist_classes[c])])
             cases.append({"kind": "tree_hist", "cls": c, "events": evs})
     for _ in range(12 * per):
         n = rng.randint(1, 3)
